@@ -6,6 +6,8 @@ import (
 	"mcverif/props/c08"
 	"mcverif/props/c09"
 	"mcverif/props/c10"
+	"mcverif/props/c11"
+	"mcverif/props/c12"
 	"mcverif/props/c13"
 	"mcverif/props/c14"
 	"mcverif/props/c15"
@@ -16,6 +18,8 @@ var Registry = map[string]engine.Spec{
 	"C08": c08.Spec,
 	"C09": c09.Spec,
 	"C10": c10.Spec,
+	"C11": c11.Spec,
+	"C12": c12.Spec,
 	"C13": c13.Spec,
 	"C14": c14.Spec,
 	"C15": c15.Spec,
